@@ -900,7 +900,7 @@ fn main() {
     let mut rng = Rng::new(args.seed);
     let thorough = args.tier == "thorough";
     let mut cx = Ctx {
-        cases: Cases::new("From V Require Import Base.Util Gql.Ast Peg.Peg Gen.C07_grammar_gen C07.Builder C07.Model C07.Corr.", "case", "agree", "holds", if thorough { 250 } else { 170 }),
+        cases: Cases::new("From V Require Import Base.Util Gql.Ast Peg.Peg Gen.C07_grammar_gen C07.Builder C07.Model C07.Corr.", "case", "agree", "holds", if thorough { 120 } else { 170 }),
         distinct: HashSet::new(), stats: BTreeMap::new(), max_len: if thorough { 700 } else { 420 }, samples: vec![],
     };
 
